@@ -76,10 +76,13 @@ def real_values(kind, a, b, l):
     from cnl2asp.specification.entity_component import TemporalEntityComponent, EntityType
     et = {'time': EntityType.TIME, 'date': EntityType.DATE, 'step': EntityType.STEP}[kind]
     try:
-        e = TemporalEntityComponent('t', '', a, b, str(l), et)
+        with rt.time_limit(20):
+            e = TemporalEntityComponent('t', '', a, b, str(l), et)
         return {'ok': [[str(k), v] for k, v in e.values.items()]}
+    except rt.NonTermination:
+        return {'err': 'nontermination'}
     except Exception as ex:  # noqa
-        return {'err': 'type-mismatch'}
+        return {'err': 'bad-length' if (kind != 'step' and l <= 0) else 'type-mismatch'}
 
 
 def real_id(kind, a, b, l, v):
@@ -114,6 +117,9 @@ def gen_unit_cases(rng, tier):
         if (b - a) // l > 300:
             l = max(l, (b - a) // 300 + 1)
         cases.append(('time', fmt_time(a), fmt_time(b), l))
+    # a length of 0: rejected (the enumeration A, A+L, … needs 0 < L)
+    cases += [('time', '07:30 AM', '09:00 AM', 0), ('time', '12:00 AM', '12:00 AM', 0), ('date', '27/02/2024', '02/03/2024', 0),
+              ('date', '01/01/2024', '01/01/2024', 0)]
     # unpadded / lower-case spellings and malformed values
     for a, b in (('7:30 AM', '8:00 AM'), ('07:30 am', '08:00 am'), ('7:5 AM', '8:00 AM'), ('13:00 AM', '01:00 PM'),
                  ('00:30 AM', '01:00 AM'), ('12:60 AM', '01:00 AM'), ('07:30', '08:00'), ('07:30 XM', '08:00 AM'),
@@ -188,6 +194,10 @@ def corr_unit(run, rng):
         real = real_values(k, a, b, l)
         run.count(('values', k, a, b, l), nontrivial='ok' in real and len(real['ok']) > 1)
         kinds[(k, 'ok' in real)] = kinds.get((k, 'ok' in real), 0) + 1
+        if real.get('err') == 'nontermination':
+            run.violation(f'unit/nontermination/{k}', f'TemporalEntityComponent({a!r}, {b!r}, length {l}) does not terminate',
+                          {'kind': k, 'a': a, 'b': b, 'length': l})
+            continue
         if real != ans:
             run.broke('corr', 'computeValues vs TemporalEntityComponent.values',
                       {'input': [k, a, b, l], 'real': str(real)[:300], 'model': str(ans)[:300]})
@@ -365,7 +375,7 @@ def main(tier):
     run.assumptions += [
         "Python datetime.strptime/strftime/timedelta are modelled (minutes of the day; Gregorian triples), compared with the real "
         "datetime on every run; years 1000..9999",
-        'a length of 0 makes _compute_values loop forever (outside the property: lengths 1..n)',
+        'a length of 0 is rejected by the model (0 < L) and, after fix e206f50, by the code; before it _compute_values looped forever',
         'ranges whose overshoot point B+L would pass 31/12/9999 raise OverflowError inside datetime (reported by the code as a '
         'type mismatch); the model has no upper calendar bound and the generator stays below year 9992',
     ]
